@@ -14,7 +14,9 @@ Local Open Scope Z_scope.
 Inductive dsl_abort :=
 | DaFuel        (* a while/for loop exceeded the loop budget L *)
 | DaDomain      (* outside the modelled/exact domain (inexact number, unmodelled conversion ...) *)
-| DaCycle       (* a container reachable from itself is passed to a structural traversal: the code recurses without bound (F-C15-a) *).
+| DaCycle       (* a container reachable from itself is passed to a structural traversal: the code recurses without bound (F-C15-a) *)
+| DaNullImport  (* a `using` import evaluates to null: VMOps::FindVarImportRef dereferences a null Object::Ptr (F-C15-f) *)
+| DaIsectAlias. (* intersection() with >= 3 arguments pads its own running result (which doubles as input) with nulls (F-C15-g) *)
 
 (* script error kinds (all are "ScriptError" to a program: try/except cannot tell them apart) *)
 Inductive dsl_errkind := DkType | DkName | DkRange | DkStack | DkUser | DkArg.
@@ -28,7 +30,11 @@ Inductive dsl_native :=
 | DnDictLen | DnDictSet | DnDictGet | DnDictRemove | DnDictClear | DnDictContains | DnDictClone
 | DnDictKeys | DnDictValues
 | DnNumToString | DnBoolToString | DnObjToString
-| DnLen | DnKeys | DnRange | DnString | DnNumber | DnBool.
+| DnLen | DnKeys | DnRange | DnString | DnNumber | DnBool
+| DnTypeOf | DnUnion | DnIntersection | DnMatch
+| DnNsSet | DnNsGet | DnNsRemove | DnNsContains | DnNsKeys | DnNsValues
+| DnRefGet | DnRefSet
+| DnJsonEncode | DnJsonDecode.
 
 Definition dsl_native_eqb (a b : dsl_native) : bool :=
   match a, b with
@@ -43,7 +49,23 @@ Definition dsl_native_eqb (a b : dsl_native) : bool :=
   | DnDictClear, DnDictClear | DnDictContains, DnDictContains | DnDictClone, DnDictClone
   | DnDictKeys, DnDictKeys | DnDictValues, DnDictValues
   | DnNumToString, DnNumToString | DnBoolToString, DnBoolToString | DnObjToString, DnObjToString
-  | DnLen, DnLen | DnKeys, DnKeys | DnRange, DnRange | DnString, DnString | DnNumber, DnNumber | DnBool, DnBool => true
+  | DnLen, DnLen | DnKeys, DnKeys | DnRange, DnRange | DnString, DnString | DnNumber, DnNumber | DnBool, DnBool
+  | DnTypeOf, DnTypeOf | DnUnion, DnUnion | DnIntersection, DnIntersection | DnMatch, DnMatch
+  | DnNsSet, DnNsSet | DnNsGet, DnNsGet | DnNsRemove, DnNsRemove | DnNsContains, DnNsContains
+  | DnNsKeys, DnNsKeys | DnNsValues, DnNsValues | DnRefGet, DnRefGet | DnRefSet, DnRefSet
+  | DnJsonEncode, DnJsonEncode | DnJsonDecode, DnJsonDecode => true
+  | _, _ => false
+  end.
+
+(* the primitive Type objects of the `Types` namespace (typeof results) *)
+Inductive dsl_type := DtObject | DtNumber | DtBoolean | DtString | DtArray | DtDictionary | DtNamespace | DtFunction
+                    | DtType | DtReference.
+
+Definition dsl_type_eqb (a b : dsl_type) : bool :=
+  match a, b with
+  | DtObject, DtObject | DtNumber, DtNumber | DtBoolean, DtBoolean | DtString, DtString | DtArray, DtArray
+  | DtDictionary, DtDictionary | DtNamespace, DtNamespace | DtFunction, DtFunction | DtType, DtType
+  | DtReference, DtReference => true
   | _, _ => false
   end.
 
@@ -58,7 +80,11 @@ Inductive dsl_val :=
 | DvNs (l : nat)                   (* Namespace object; location 0 = the globals *)
 | DvFun (l : nat)                  (* script function (closure) *)
 | DvNat (n : dsl_native)           (* built-in function object (prototype method / System function) *)
-| DvSys.                           (* the System namespace (only used as call target / this of built-ins) *)
+| DvSys                            (* the System namespace (only used as call target / this of built-ins) *)
+| DvType (t : dsl_type)            (* a Type object *)
+| DvRef (l : nat)                  (* a Reference object (&x) *)
+| DvJson                           (* the frozen System.Json namespace *)
+| DvTypes.                         (* the Types namespace (only its primitive members are modelled) *)
 
 Inductive dsl_binop := DbAdd | DbSub | DbMul | DbDiv | DbMod | DbXor | DbAnd | DbOr | DbShl | DbShr
                      | DbEq | DbNe | DbLt | DbGt | DbLe | DbGe.
@@ -85,12 +111,19 @@ Inductive dsl_expr :=
 | DeIndex (a i : dsl_expr)                              (* a[i], a.name *)
 | DeThrow (a : dsl_expr)
 | DeTry (a b : dsl_expr)
-| DeFunc (params : list string) (closed : list (string * dsl_expr)) (body : dsl_expr).
+| DeFunc (params : list string) (closed : list (string * dsl_expr)) (body : dsl_expr)
+| DeVarU (imports : list dsl_expr) (x : string)         (* VariableExpression compiled after `using` directives (innermost last) *)
+| DeRef (a : dsl_expr)                                  (* &a  RefExpression *)
+| DeDeref (a : dsl_expr)                                (* *a  DerefExpression *)
+| DeConst (x : string) (a : dsl_expr)                   (* const X = a  SetConstExpression *)
+| DeNsDef (body : dsl_expr).                            (* NamespaceExpression (the assignment to globals.X is a DeSet around it) *)
 
 Inductive dsl_obj :=
 | DoArr (xs : list dsl_val)
 | DoDict (kv : list (string * dsl_val))                 (* key-sorted, duplicate free (std::map) *)
-| DoNs (kv : list (string * dsl_val))
+| DoNs (allc : bool) (cst : list string) (kv : list (string * dsl_val))
+         (* Namespace: allc = m_ConstValues (every inserted value is a constant), cst = the keys flagged Const *)
+| DoRef (parent : dsl_val) (idx : string)               (* Reference(parent, index) *)
 | DoFun (params : list string) (closed : list (string * dsl_val)) (body : dsl_expr).
 
 Definition dsl_store := list dsl_obj.
@@ -124,11 +157,11 @@ Definition dsl_alloc (st : dsl_store) (o : dsl_obj) : dsl_store * nat := ((st ++
 Definition dsl_arr (st : dsl_store) (l : nat) : list dsl_val :=
   match dsl_sget st l with Some (DoArr xs) => xs | _ => [] end.
 Definition dsl_kv (st : dsl_store) (l : nat) : list (string * dsl_val) :=
-  match dsl_sget st l with Some (DoDict kv) => kv | Some (DoNs kv) => kv | _ => [] end.
+  match dsl_sget st l with Some (DoDict kv) => kv | Some (DoNs _ _ kv) => kv | _ => [] end.
 (* write back keeping the object kind *)
 Definition dsl_kv_put (st : dsl_store) (l : nat) (kv : list (string * dsl_val)) : dsl_store :=
   match dsl_sget st l with
-  | Some (DoNs _) => dsl_sset st l (DoNs kv)
+  | Some (DoNs a c _) => dsl_sset st l (DoNs a c kv)
   | _ => dsl_sset st l (DoDict kv)
   end.
 
@@ -345,6 +378,10 @@ Fixpoint dsl_show (fuel : nat) (st : dsl_store) (path : list nat) (v : dsl_val) 
       | DvFun _ => "fn"
       | DvNat _ => "fn"
       | DvSys => "ns"
+      | DvType _ => "obj"
+      | DvRef _ => "obj"
+      | DvJson => "ns"
+      | DvTypes => "ns"
       end
   end.
 
